@@ -33,6 +33,18 @@ class AnalysisError(Exception):
 # helpers on syntax trees
 
 
+
+class _Anchors(dict):
+    """a table of anchors (methods of a class): a missing one ends the analysis as not-understood, not as a crash of the checker"""
+
+    def __init__(self, kind: str):
+        super().__init__()
+        self.kind = kind
+
+    def __missing__(self, key):
+        raise AnalysisError(f'anchor {self.kind} {key} not found')
+
+
 def unparse(node: ast.AST | None) -> str:
     return '' if node is None else ast.unparse(node)
 
@@ -223,7 +235,7 @@ class ClassInfo:
     node: ast.ClassDef
     base_exprs: list[ast.expr] = field(default_factory=list)
     bases: list['ClassInfo | str'] = field(default_factory=list)
-    methods: dict[str, FuncInfo] = field(default_factory=dict)
+    methods: dict[str, FuncInfo] = field(default_factory=lambda: _Anchors('method'))
     #: class-level simple assignments name -> value
     assigns: dict[str, ast.expr] = field(default_factory=dict)
     #: annotated class-level fields in order (dataclass / NamedTuple)
@@ -511,7 +523,13 @@ class Program:
             if base is None:
                 return None
             if base[0] == 'module':
-                return self.resolve_name(base[1], expr.attr)
+                r = self.resolve_name(base[1], expr.attr)
+                if r is None:
+                    # `import pkg.sub` ... `pkg.sub.f`: the attribute of a package is its submodule
+                    sub = self.modules.get(f'{base[1].name}.{expr.attr}')
+                    if sub is not None:
+                        return ('module', sub)
+                return r
             if base[0] == 'class':
                 f = base[1].resolve(expr.attr)
                 if f is not None:
@@ -788,24 +806,83 @@ def named_args(call: ast.Call) -> dict[str, str]:
     return out
 
 
+_SINGLE_DEFS: dict = {}
+
+
+def fast_copy(node):
+    """structural copy of a syntax tree (fields, positions, document order); several times faster than copy.deepcopy"""
+    if isinstance(node, list):
+        return [fast_copy(x) for x in node]
+    if not isinstance(node, ast.AST):
+        return node
+    new = node.__class__.__new__(node.__class__)
+    d = new.__dict__
+    d.update(node.__dict__)  # positions, document order, back-references (to the enclosing function...) by reference
+    for k in node._fields:
+        v = d.get(k)
+        if isinstance(v, (ast.AST, list)):
+            d[k] = fast_copy(v)
+    return new
+
+
+def _bound_or_mutated(target: ast.expr):
+    """the names an assignment target binds (`x`, `(x, y)`) or mutates (the container `t` of `t[key] = v` / `t.a = v`); the names read
+    in an index (`key`) are neither"""
+    if isinstance(target, ast.Name):
+        yield target
+    elif isinstance(target, (ast.Tuple, ast.List)):
+        for e in target.elts:
+            yield from _bound_or_mutated(e)
+    elif isinstance(target, ast.Starred):
+        yield from _bound_or_mutated(target.value)
+    elif isinstance(target, (ast.Subscript, ast.Attribute)):
+        r = target.value
+        while isinstance(r, (ast.Subscript, ast.Attribute)):
+            r = r.value
+        if isinstance(r, ast.Name):
+            yield r
+
+
 def inline_locals(func_node: ast.AST, expr: ast.expr, depth: int = 6) -> ast.expr:
     """Copy of expr in which every local of the function that is assigned exactly once (plain `x = <expr>` anywhere in the
     function, no augmented assignment, not a parameter, not a loop target) is replaced by its definition, recursively.
     Makes arithmetic rules independent of how intermediate results are named."""
     import copy
 
+    hit = _SINGLE_DEFS.get(id(func_node))
+    if hit is not None and hit[0] is func_node:
+        single = hit[1]
+    else:
+        single = _single_definitions(func_node)
+        if getattr(func_node, '_verif_seq', None) is not None:  # (a function of a Program: not modified after normalisation; copies made by rules are not cached)
+            if len(_SINGLE_DEFS) > 20000:
+                _SINGLE_DEFS.clear()
+            _SINGLE_DEFS[id(func_node)] = (func_node, single)
+
+    class Sub(ast.NodeTransformer):
+        def __init__(self, d):
+            self.d = d
+
+        def visit_Name(self, node):
+            if isinstance(node.ctx, ast.Load) and node.id in single and self.d > 0:
+                return Sub(self.d - 1).visit(fast_copy(single[node.id]))
+            return node
+
+    return ast.fix_missing_locations(Sub(depth).visit(fast_copy(expr)))
+
+
+def _single_definitions(func_node: ast.AST) -> dict:
     a = func_node.args
     params = {x.arg for x in a.posonlyargs + a.args + a.kwonlyargs} | ({a.vararg.arg} if a.vararg else set()) | ({a.kwarg.arg} if a.kwarg else set())
     defs: dict[str, list] = {}
     for n in walk_no_nested(func_node):
         if isinstance(n, ast.Assign):
             for t in n.targets:
-                for x in ast.walk(t):
-                    if isinstance(x, ast.Name):
-                        defs.setdefault(x.id, []).append(n if (isinstance(t, ast.Name) and len(n.targets) == 1) else None)
+                for x in _bound_or_mutated(t):
+                    defs.setdefault(x.id, []).append(n if (isinstance(t, ast.Name) and len(n.targets) == 1) else None)
         elif isinstance(n, (ast.AugAssign, ast.AnnAssign)):
-            for x in ast.walk(n.target):
-                if isinstance(x, ast.Name):
+            for x in _bound_or_mutated(n.target):
+                if True:
                     defs.setdefault(x.id, []).append(n if isinstance(n, ast.AnnAssign) and n.value is not None and isinstance(n.target, ast.Name) else None)
         elif isinstance(n, (ast.For, ast.comprehension)):
             for x in ast.walk(n.target):
@@ -819,15 +896,4 @@ def inline_locals(func_node: ast.AST, expr: ast.expr, depth: int = 6) -> ast.exp
                             defs.setdefault(x.id, []).append(None)
         elif isinstance(n, ast.NamedExpr):
             defs.setdefault(n.target.id, []).append(None)
-    single = {k: v[0].value for k, v in defs.items() if len(v) == 1 and v[0] is not None and k not in params}
-
-    class Sub(ast.NodeTransformer):
-        def __init__(self, d):
-            self.d = d
-
-        def visit_Name(self, node):
-            if isinstance(node.ctx, ast.Load) and node.id in single and self.d > 0:
-                return Sub(self.d - 1).visit(copy.deepcopy(single[node.id]))
-            return node
-
-    return ast.fix_missing_locations(Sub(depth).visit(copy.deepcopy(expr)))
+    return {k: v[0].value for k, v in defs.items() if len(v) == 1 and v[0] is not None and k not in params}
